@@ -4,23 +4,23 @@ accepted — the invariant `Keys` and its preservation (core Lean only). -/
 namespace SgModel.Quota
 open SgModel.Persist
 
-def isCreate (id : Nat) : Op → Bool
-  | .createNode i .. => i == id
+def isCreate (id : Nat) : Call → Bool
+  | .op (.createNode i ..) => i == id
   | _ => false
 
 /-- node `id` has an accepted creation: a completed call that returned `Ok`, or a call in
 progress that has already written it (and can no longer fail) -/
 def Acc (sys : Sys) (id : Nat) : Prop :=
-  (∃ (i : Nat) (th : Thread) (x : Op × Res),
+  (∃ (i : Nat) (th : Thread) (x : Call × Res),
       sys.threads[i]? = some th ∧ x ∈ th.done ∧ isCreate id x.1 = true ∧ x.2 = .ok)
-  ∨ (∃ (i : Nat) (th : Thread) (op : Op) (rest : List Op),
+  ∨ (∃ (i : Nat) (th : Thread) (op : Call) (rest : List Call),
       sys.threads[i]? = some th ∧ th.prog = op :: rest ∧ isCreate id op = true
         ∧ (th.pc = some .count ∨ th.pc = some .ret))
 
 def Keys (sys : Sys) : Prop := ∀ id, has sys.shared.kv.nodes id = true → Acc sys id
 
 theorem has_apply_nodes (kv : KV) (op : Op) (id : Nat) (h : has (kv.apply op).nodes id = true) :
-    has kv.nodes id = true ∨ isCreate id op = true := by
+    has kv.nodes id = true ∨ isCreate id (.op op) = true := by
   cases op with
   | createNode i ls ps =>
     simp only [KV.apply, has_put, Bool.or_eq_true, decide_eq_true_eq] at h
@@ -46,42 +46,62 @@ theorem has_apply_nodes (kv : KV) (op : Op) (id : Nat) (h : has (kv.apply op).no
     | some v => simp only [hg] at h; exact Or.inl h
 
 /-- F1: the store gains node `id` only in the `store` step of a creation of `id` -/
-theorem micro_nodes (cfg : Cfg) (hreg : cfg.registered = true) (op : Op) (pc : Pc) (s s' : State)
-    (l l' : Local) (r : Except Err Pc) (h : micro cfg op pc s l = (s', l', r)) (id : Nat)
+theorem micro_nodes (cfg : Cfg) (hreg : cfg.registered = true) (c : Call) (pc : Pc) (s s' : State)
+    (l l' : Local) (r : Except Err Pc) (h : callMicro fixed cfg c pc s l = (s', l', r)) (id : Nat)
     (hh : has s'.kv.nodes id = true) :
-    has s.kv.nodes id = true ∨ (pc = .store ∧ isCreate id op = true) := by
-  cases pc with
-  | lock => rw [micro_lock] at h; simp only [Prod.mk.injEq] at h; rw [← h.1] at hh; exact Or.inl hh
-  | check =>
-    rw [micro_check] at h
-    cases hq : quotaOf cfg op s <;> simp only [hq, Prod.mk.injEq] at h <;> (rw [← h.1] at hh; exact Or.inl hh)
-  | log => rw [micro_log] at h; simp only [Prod.mk.injEq] at h; rw [← h.1] at hh; exact Or.inl hh
-  | store =>
-    rw [micro_store] at h; simp only [Prod.mk.injEq] at h; rw [← h.1] at hh
-    rcases has_apply_nodes s.kv op id hh with h1 | h1
-    · exact Or.inl h1
-    · exact Or.inr ⟨rfl, h1⟩
-  | count =>
-    rw [micro_count cfg hreg] at h; simp only [Prod.mk.injEq] at h; rw [← h.1, counted_kv] at hh
-    exact Or.inl hh
-  | ret => rw [micro_ret] at h; simp only [Prod.mk.injEq] at h; rw [← h.1] at hh; exact Or.inl hh
-  | done => simp only [micro, Prod.mk.injEq] at h; rw [← h.1] at hh; exact Or.inl hh
+    has s.kv.nodes id = true ∨ (pc = .store ∧ isCreate id c = true) := by
+  cases c with
+  | op op =>
+    simp only [callMicro_op, fixed_micro] at h
+    cases pc with
+    | lock => rw [micro_lock] at h; simp only [Prod.mk.injEq] at h; rw [← h.1] at hh; exact Or.inl hh
+    | check =>
+      rw [micro_check] at h
+      cases hq : quotaOf cfg op s <;> simp only [hq, Prod.mk.injEq] at h <;> (rw [← h.1] at hh; exact Or.inl hh)
+    | log => rw [micro_log] at h; simp only [Prod.mk.injEq] at h; rw [← h.1] at hh; exact Or.inl hh
+    | store =>
+      rw [micro_store] at h; simp only [Prod.mk.injEq] at h; rw [← h.1] at hh
+      rcases has_apply_nodes s.kv op id hh with h1 | h1
+      · exact Or.inl h1
+      · exact Or.inr ⟨rfl, h1⟩
+    | count =>
+      rw [micro_count cfg hreg] at h; simp only [Prod.mk.injEq] at h; rw [← h.1, counted_kv] at hh
+      exact Or.inl hh
+    | ret => rw [micro_ret] at h; simp only [Prod.mk.injEq] at h; rw [← h.1] at hh; exact Or.inl hh
+    | scan => simp only [micro, Prod.mk.injEq] at h; rw [← h.1] at hh; exact Or.inl hh
+    | done => simp only [micro, Prod.mk.injEq] at h; rw [← h.1] at hh; exact Or.inl hh
+  | recover =>
+    simp only [callMicro_recover, fixed_recMicro] at h
+    have hkv : s'.kv = s.kv := by
+      cases pc <;> simp only [recMicro, Prod.mk.injEq] at h
+      all_goals first
+        | (rw [← h.1])
+        | (split at h <;> simp only [Prod.mk.injEq] at h <;> rw [← h.1])
+    rw [hkv] at hh; exact Or.inl hh
 
 /-- F2/F3: from `count` the call goes to `ret`, from `ret` it returns `Ok`, and the `store`
 step of a creation goes to `count` — none of them can fail -/
-theorem micro_next (cfg : Cfg) (hreg : cfg.registered = true) (op : Op) (pc : Pc) (s s' : State)
-    (l l' : Local) (r : Except Err Pc) (h : micro cfg op pc s l = (s', l', r)) :
+theorem micro_next (cfg : Cfg) (hreg : cfg.registered = true) (c : Call) (pc : Pc) (s s' : State)
+    (l l' : Local) (r : Except Err Pc) (h : callMicro fixed cfg c pc s l = (s', l', r)) :
     (pc = .count → r = .ok .ret) ∧ (pc = .ret → r = .ok .done)
-    ∧ (pc = .store → op.kind = .create → r = .ok .count) := by
-  refine ⟨?_, ?_, ?_⟩
-  · intro hp; subst hp; rw [micro_count cfg hreg] at h; simp only [Prod.mk.injEq] at h; exact h.2.2.symm
-  · intro hp; subst hp; rw [micro_ret] at h; simp only [Prod.mk.injEq] at h; exact h.2.2.symm
-  · intro hp hk; subst hp; rw [micro_store] at h; simp only [Prod.mk.injEq, hk] at h; exact h.2.2.symm
+    ∧ (pc = .store → ∀ id, isCreate id c = true → r = .ok .count) := by
+  cases c with
+  | op op =>
+    simp only [callMicro_op, fixed_micro] at h
+    refine ⟨?_, ?_, ?_⟩
+    · intro hp; subst hp; rw [micro_count cfg hreg] at h; simp only [Prod.mk.injEq] at h; exact h.2.2.symm
+    · intro hp; subst hp; rw [micro_ret] at h; simp only [Prod.mk.injEq] at h; exact h.2.2.symm
+    · intro hp id hc; subst hp
+      have hk : op.kind = .create := by cases op <;> simp [isCreate] at hc <;> rfl
+      rw [micro_store] at h; simp only [Prod.mk.injEq, hk] at h; exact h.2.2.symm
+  | recover =>
+    simp only [callMicro_recover, fixed_recMicro] at h
+    refine ⟨?_, ?_, ?_⟩
+    · intro hp; subst hp; rw [recMicro_count cfg hreg] at h; simp only [Prod.mk.injEq] at h; exact h.2.2.symm
+    · intro hp; subst hp; rw [recMicro_ret] at h; simp only [Prod.mk.injEq] at h; exact h.2.2.symm
+    · intro _ id hc; simp [isCreate] at hc
 
-theorem isCreate_kind (id : Nat) (op : Op) (h : isCreate id op = true) : op.kind = .create := by
-  cases op <;> simp [isCreate] at h <;> rfl
-
-theorem acc_finish (sys : Sys) (t : Nat) (th : Thread) (op : Op) (rest : List Op) (s' : State)
+theorem acc_finish (sys : Sys) (t : Nat) (th : Thread) (op : Call) (rest : List Call) (s' : State)
     (lk : Option Nat) (r : Res) (id : Nat) (hth : sys.threads[t]? = some th) (hprog : th.prog = op :: rest)
     (hr : (th.pc = some .count ∨ th.pc = some .ret) → r = .ok)
     (h : Acc sys id) : Acc (finish sys t th op rest s' lk r) id := by
@@ -104,7 +124,7 @@ theorem acc_finish (sys : Sys) (t : Nat) (th : Thread) (op : Op) (rest : List Op
     · have hne : t ≠ i := fun e => hit e.symm
       exact Or.inr ⟨i, thi, op', rest', by simp only [finish, List.getElem?_set_ne hne]; exact hi, hp, hc, hpc⟩
 
-theorem acc_cont (sys : Sys) (t : Nat) (th : Thread) (op : Op) (rest : List Op) (s' : State)
+theorem acc_cont (sys : Sys) (t : Nat) (th : Thread) (op : Call) (rest : List Call) (s' : State)
     (lk : Option Nat) (pc' : Pc) (l' : Local) (id : Nat) (hth : sys.threads[t]? = some th)
     (hprog : th.prog = op :: rest)
     (hr : (th.pc = some .count ∨ th.pc = some .ret) → (pc' = .count ∨ pc' = .ret))
@@ -127,7 +147,7 @@ theorem acc_cont (sys : Sys) (t : Nat) (th : Thread) (op : Op) (rest : List Op) 
     · have hne : t ≠ i := fun e => hit e.symm
       exact Or.inr ⟨i, thi, op', rest', by simp only [cont, List.getElem?_set_ne hne]; exact hi, hp, hc, hpc⟩
 
-theorem acc_cont_new (sys : Sys) (t : Nat) (th : Thread) (op : Op) (rest : List Op) (s' : State)
+theorem acc_cont_new (sys : Sys) (t : Nat) (th : Thread) (op : Call) (rest : List Call) (s' : State)
     (lk : Option Nat) (l' : Local) (id : Nat) (hth : sys.threads[t]? = some th)
     (hc : isCreate id op = true) : Acc (cont sys t th op rest s' lk .count l') id :=
   Or.inr ⟨t, ({ prog := op :: rest, pc := some .count, loc := l', done := th.done } : Thread), op, rest,
@@ -144,11 +164,11 @@ theorem step_keys (cfg : Cfg) (hreg : cfg.registered = true) (sys : Sys) (t : Na
     cases hprog : th.prog with
     | nil => simp [stepThread, hth, hprog]; exact h
     | cons op rest =>
-      by_cases hen : th.pc.getD (fixed.start op) = .lock ∧ sys.lock ≠ none
+      by_cases hen : th.pc.getD (callStart fixed op) = .lock ∧ sys.lock ≠ none
       · rw [stepThread_disabled fixed cfg sys t th op rest hth hprog hen]; exact h
       · rw [stepThread_eq fixed cfg sys t th op rest hth hprog hen]
-        rcases hmic : fixed.micro cfg op (th.pc.getD (fixed.start op)) sys.shared th.loc with ⟨s', l', r⟩
-        have hmic' : micro cfg op (th.pc.getD (fixed.start op)) sys.shared th.loc = (s', l', r) := hmic
+        rcases hmic : callMicro fixed cfg op (th.pc.getD (callStart fixed op)) sys.shared th.loc with ⟨s', l', r⟩
+        have hmic' : callMicro fixed cfg op (th.pc.getD (callStart fixed op)) sys.shared th.loc = (s', l', r) := hmic
         have hnext := micro_next cfg hreg op _ _ _ _ _ _ hmic'
         -- what `th.pc ∈ {count, ret}` says about the step
         have hcr : (th.pc = some .count ∨ th.pc = some .ret) →
@@ -164,7 +184,7 @@ theorem step_keys (cfg : Cfg) (hreg : cfg.registered = true) (sys : Sys) (t : Na
           rcases micro_nodes cfg hreg op _ _ _ _ _ _ hmic' id hid with h1 | ⟨hp, hc⟩
           · exact acc_finish sys t th op rest s' _ _ id hth hprog
               (fun hpc => by rcases hcr hpc with h2 | h2 <;> simp at h2) (h id h1)
-          · have := hnext.2.2 hp (isCreate_kind id op hc); simp at this
+          · have := hnext.2.2 hp id hc; simp at this
         | ok pc' =>
           simp only
           split
@@ -173,7 +193,7 @@ theorem step_keys (cfg : Cfg) (hreg : cfg.registered = true) (sys : Sys) (t : Na
             rcases micro_nodes cfg hreg op _ _ _ _ _ _ hmic' id hid with h1 | ⟨hp, hc⟩
             · exact acc_finish sys t th op rest s' _ _ id hth hprog (fun _ => rfl) (h id h1)
             · rename_i hd
-              have := hnext.2.2 hp (isCreate_kind id op hc)
+              have := hnext.2.2 hp id hc
               simp only [Except.ok.injEq] at this
               rw [this] at hd; simp at hd
           · rename_i hd
@@ -185,7 +205,7 @@ theorem step_keys (cfg : Cfg) (hreg : cfg.registered = true) (sys : Sys) (t : Na
               rcases hcr hpc with h2 | h2
               · simp only [Except.ok.injEq] at h2; exact Or.inr h2
               · simp only [Except.ok.injEq] at h2; exact absurd h2 hd
-            · have := hnext.2.2 hp (isCreate_kind id op hc)
+            · have := hnext.2.2 hp id hc
               simp only [Except.ok.injEq] at this
               subst this
               exact acc_cont_new sys t th op rest s' _ l' id hth hc
@@ -206,7 +226,7 @@ theorem drain_keys (cfg : Cfg) (hreg : cfg.registered = true) (fuel : Nat) (sys 
     · exact ih _ (step_keys cfg hreg sys _ h)
     · exact h
 
-theorem init_keys (progs : List (List Op)) : Keys (init progs) := by
+theorem init_keys (progs : List (List Call)) : Keys (init progs) := by
   intro id h
   simp [init, has_nil] at h
 
@@ -223,7 +243,7 @@ theorem zip_fst_snd {α β : Type} (l : List (α × β)) : (l.map (·.1)).zip (l
 
 /-- at the end (every thread finished) every stored node has an accepted creation among the
 calls, as counted on the observations -/
-theorem accepted_of_keys (progs : List (List Op)) (sys : Sys) (hs : Shape progs sys) (hk : Keys sys)
+theorem accepted_of_keys (progs : List (List Call)) (sys : Sys) (hs : Shape progs sys) (hk : Keys sys)
     (hfin : ∀ th ∈ sys.threads, th.prog = []) (id : Nat) (hid : id ∈ sys.shared.kv.nodes.map (·.1)) :
     0 < acceptedCreates progs (sys.threads.map (fun th => th.done.map (·.2))) id := by
   have hacc := hk id ((has_iff_mem_keys _ _).mpr hid)
@@ -232,10 +252,10 @@ theorem accepted_of_keys (progs : List (List Op)) (sys : Sys) (hs : Shape progs 
     rw [hfin th (List.mem_of_getElem? hi), List.append_nil] at hp
     -- the i-th summand counts `x`
     have hmem : ((th.done.filter (fun x =>
-          (match x.1 with | .createNode i .. => i == id | _ => false) && x.2.isOk)).length)
+          (match x.1 with | .op (.createNode i ..) => i == id | _ => false) && x.2.isOk)).length)
         ∈ ((progs.zip (sys.threads.map (fun th => th.done.map (·.2)))).map (fun pr =>
             ((pr.1.zip pr.2).filter (fun x =>
-              (match x.1 with | .createNode i .. => i == id | _ => false) && x.2.isOk)).length)) := by
+              (match x.1 with | .op (.createNode i ..) => i == id | _ => false) && x.2.isOk)).length)) := by
       rw [List.mem_map]
       refine ⟨(th.done.map (·.1), th.done.map (·.2)), ?_, by simp only [zip_fst_snd]⟩
       rw [List.mem_iff_getElem?]
@@ -243,7 +263,7 @@ theorem accepted_of_keys (progs : List (List Op)) (sys : Sys) (hs : Shape progs 
       rw [List.getElem?_zip_eq_some]
       exact ⟨hp, by simp [List.getElem?_map, hi]⟩
     have hpos : 0 < (th.done.filter (fun x =>
-          (match x.1 with | .createNode i .. => i == id | _ => false) && x.2.isOk)).length := by
+          (match x.1 with | .op (.createNode i ..) => i == id | _ => false) && x.2.isOk)).length := by
       apply List.length_pos_of_mem (a := x)
       rw [List.mem_filter]
       refine ⟨hx, ?_⟩
